@@ -547,7 +547,8 @@ Proof.
     destruct b; [apply shape_on_hs_out_ok|apply shape_of_quiet, quiet_on_hs_err].
   - destruct (hval s p); [|apply sh_quiet; quiet_tac].
     apply shape_of_quiet. eapply quiet_frame; [|apply quiet_on_validation]. repeat split.
-  - apply shape_of_quiet, quiet_on_timer.
+  - destruct (existsb (N.eqb p) (timers s)); [|apply sh_quiet; quiet_tac].
+    apply shape_of_quiet. eapply quiet_frame; [|apply quiet_on_timer]. repeat split.
   - destruct (hopen s p); [apply sh_quiet; quiet_tac|]. apply shape_of_quiet, quiet_on_open.
   - destruct (hopen s p); [|apply sh_quiet; quiet_tac]. eapply shape_on_close; eauto.
   - apply sh_quiet. quiet_tac.
@@ -709,7 +710,8 @@ Proof.
     setters. rewrite upd_same in E. inversion E; subst. left. rewrite Hq. eauto.
   - destruct (hval s q); [|inversion M; subst; destruct HIn].
     exfalso. eapply quiet_no_opened; [|exact HIn]. rewrite <- M. apply quiet_on_validation.
-  - exfalso. eapply quiet_no_opened; [|exact HIn]. rewrite <- M. apply quiet_on_timer.
+  - destruct (existsb (N.eqb q) (timers s)); [|inversion M; subst; destruct HIn].
+    exfalso. eapply quiet_no_opened; [|exact HIn]. rewrite <- M. apply quiet_on_timer.
   - destruct (hopen s q); [inversion M; subst; destruct HIn|].
     exfalso. eapply quiet_no_opened; [|exact HIn]. rewrite <- M. apply quiet_on_open.
   - destruct (hopen s q); [|inversion M; subst; destruct HIn].
